@@ -125,7 +125,10 @@ theorem inv_recStep_replay {cfg : Cfg} {s : St} {d : Disk} (h : Inv cfg s d) {r 
   · intro _
     show Holds (some _) _
     simp only [Holds]
-    refine ⟨MfdOK.nojob hjob (by have := r1; unfold MfdOK at this; rw [hjob] at this; exact this), r2, r3.2,
+    refine ⟨r1.transport (by rw [hjob]; intro m hm; cases hm) (by
+        intro m hm
+        have : s.job.map (·.pc) = some (JPc.rotRemove m) := hm
+        rw [hjob] at this; cases this) rfl rfl rfl, r2, r3.2,
       ?_, ⟨r5.1, r5.2.1, fun n hn => r5.2.2 n (by rw [ht]; exact List.mem_cons_of_mem _ hn)⟩, p5, ?_, fun _ => ?_,
       ?_, ?_⟩
     · intro o ho' n hn
@@ -137,7 +140,7 @@ theorem inv_recStep_replay {cfg : Cfg} {s : St} {d : Disk} (h : Inv cfg s d) {r 
     · unfold Settled at hview ⊢
       have hv1 := holds_some hview hparts.cur
       rw [hlv] at hv1
-      obtain ⟨hu, hm, _⟩ : (s.manifestOpen = true → mf.unsynced = []) ∧ Mirror s v ∧
+      obtain ⟨hu, hm, _⟩ : (s.manifestOpen = true → s.limbo = none → mf.unsynced = []) ∧ Mirror s v ∧
           ∀ o, r.ofd = some o → v.jn ≤ o := hv1
       apply holds_of_some hparts.cur
       refine ⟨hu, ?_⟩
